@@ -13,7 +13,12 @@ Monitors (all runtime monitoring of the real code):
         termination on logical steps, escaped exceptions, canary after every
         datagram, strict independent decoder decides malformed/valid.
   reg   ordered-registry reference model vs SystemAction / ServerAction /
-        NotificationCenter under add/remove/run histories.
+        NotificationCenter under add/remove/run histories (raising actions,
+        removal from inside actions, one-shots).
+  midi  dispatch model vs MidiFunc responders fed through the registered MIDI
+        receive function (types, ports, dict templates, one-shots, faults).
+  tcp   harness peer writes whole / coalesced / fragmented size-prefixed
+        frames to the library's OscTcpInterface; exact in-order delivery.
 """
 
 from vf.common import iter_cases, case_rng, h64, split
@@ -43,13 +48,21 @@ ASSUMPTIONS = [
     "matching, '-' at the end of a bracket list and '!' not at its start are literal)",
     "vf/osc.py strict decoder decides which byte strings are valid OSC 1.0; only "
     "classes in c18_gen.STRICT_NOTHING make an invocation a violation, other "
-    "deviations tolerated by a lenient reader are counted (lenient_dispatch/*)",
+    "deviations tolerated by a lenient reader (padding, alignment, missing type tag "
+    "string or comma, trailing bytes, empty/unknown elements, short final float) are "
+    "counted (lenient_dispatch/*); valid messages with optional OSC 1.0 type tags "
+    "(N I h S ...) may be delivered exactly or discarded, never altered; valid "
+    "nesting deeper than 300 bundles may be dropped as a whole",
+    "TCP: frames are written by the harness peer with 2 ms pauses between fragments; "
+    "a pause the reader does not observe only makes the case less effective",
     "responder invocation, not delivery latency, is decided; waiting is on a canary "
     "message scheduled behind the datagram under test (SystemClock queue is FIFO "
     "for equal times, property C09)",
-    "function replacement on a one-shot responder, enable() after free(), None/"
-    "predicate template items beyond the end of a message and responders whose "
-    "state an earlier callback of the same dispatch changed are left open",
+    "enable() after free() is not generated (documentation of free: 'when you are "
+    "finished using this object'); None/predicate template items beyond the end of "
+    "a message (and on absent MIDI fields) and responders whose state an earlier "
+    "callback of the same dispatch changed are left open; a one-shot responder "
+    "stays one-shot when its function is replaced",
     "after a responder function raised, responders of that message not registered "
     "before it on its path are left open (the library abandons the dispatch of that "
     "message); the raising invocation counts, a fired one-shot stays spent",
@@ -63,6 +76,9 @@ MIN_COUNTERS = {
               'order_pairs_checked': 200, 'one_shots_fired': 100,
               'in_callback_ops_total': 100, 'messages_shorter_than_template': 50,
               'injected_callback_faults': 300, 'registry_removed_before_its_turn': 200,
+              'registry_injected_faults': 1000, 'cmdperiod_residue_checks': 500,
+              'fuzz_valid_optional_type_tags': 200, 'midi_messages': 5000,
+              'midi_one_shots_fired': 300, 'tcp_frames': 300,
               'pattern_pairs': 20000, 'pattern_pairs_expected_match': 2000,
               'fuzz_datagrams': 5000, 'fuzz_malformed': 2000,
               'fuzz_canaries_ok': 5000, 'parser_line_events': 100000,
@@ -73,6 +89,9 @@ MIN_COUNTERS = {
                  'in_callback_ops_total': 3000,
                  'injected_callback_faults': 8000,
                  'registry_removed_before_its_turn': 5000,
+                 'registry_injected_faults': 50000, 'cmdperiod_residue_checks': 30000,
+                 'fuzz_valid_optional_type_tags': 10000, 'midi_messages': 200000,
+                 'midi_one_shots_fired': 10000, 'tcp_frames': 10000,
                  'messages_shorter_than_template': 1500,
                  'pattern_pairs': 1000000, 'pattern_pairs_expected_match': 100000,
                  'fuzz_datagrams': 200000, 'fuzz_malformed': 80000,
